@@ -442,6 +442,10 @@ def install_symarrays(x, ctx, nrows):
     def np_vstack(x_, args, kwargs, st, n):
         items = x_.unpack(args[0], st, n)
         return alloc(st, "vstack", z3.IntVal(-1), parts=VTuple(items))
+    def np_hypot_arr(x_, args, kwargs, st, n):
+        if all(isinstance(a, VRef) and a.cls == "SymArr" for a in args): return alloc(st, "hypot-of-columns", st.heap[args[0].oid]["$n"])
+        raise Unsupported("np.hypot on scalars inside the array model")
+    x.ext["np.hypot"] = np_hypot_arr
     x.ext["np.diff"] = np_diff; x.ext["np.linalg.norm"] = np_norm; x.ext["np.ones"] = np_ones; x.ext["np.vstack"] = np_vstack
     x.ext["np.linalg"] = VModule("np.linalg")
     x.contracts[("SymArr", "__len__")] = lambda x_, recv, a, k, st: VNum(Z0, z3.ToReal(st.heap[recv.oid]["$n"]), True)
@@ -463,6 +467,8 @@ def install_symarrays(x, ctx, nrows):
     def e_sub(node, st_):
         base = x.ev(node.value, st_)
         if isinstance(base, VRef) and base.cls == "SymArr":
+            if isinstance(node.slice, ast.Tuple):
+                return alloc(st_, "column", st_.heap[base.oid]["$n"], base=base, desc=VStr(ast.dump(node.slice)))
             if isinstance(node.slice, ast.Slice):
                 o = st_.heap[base.oid]
                 lo = node.slice.lower; hi = node.slice.upper
